@@ -1,8 +1,14 @@
 """C10 — categorical sensors are mapped onto dumps by the documented rule (correspondence + search).
 
-Runs the real katdal.categorical.sensor_to_categorical (directly, and through SensorCache.get for
-non-float sensors) and the real generator _single_event_per_dump against the extracted Coq model
-(the tie) and the extracted declarative per-dump spec (the property).
+Runs the real katdal code through the entry points the property names
+  * katdal.categorical.sensor_to_categorical(timestamps, values, dump_midtimes, dump_period, ...)[:]      (path=direct)
+  * SensorCache.get(name) / cache[name] for non-float sensors, from RAW samples (unsorted, duplicate timestamps,
+    unreadable statuses, time offset, empty sensors, keep masks, explicit / default categorical)            (path=cache)
+  * d.sensor[...] of real (synthetic) data sets of every format, with the sensor properties of the format tables
+    (harness/props/c10_tables.py)                                                                           (path=dataset)
+  * the generator _single_event_per_dump itself                                                             (path=generator)
+against the extracted Coq model written over the regenerated definitions (the tie) and the extracted declarative
+per-dump rule (the property).
 """
 import itertools
 import logging
@@ -10,25 +16,32 @@ import warnings
 
 import numpy as np
 
-RULE = ('a case is (event times in half-dump units from two periods before the first dump to two after the last, '
-        'several per dump, on edges; values from a 4-letter alphabet; N<=7 dumps, regular or irregular dump ends; '
-        'greedy set of 0/1/2 values; initial value absent/plain/greedy; transform none or merging two letters; '
-        'allow_repeats; value representation str/int/wrapped ndarray/wrapped tuple; path direct or SensorCache.get); '
-        'non-trivial when at least one event lies inside the dumps and either two events share a dump or a greedy '
+RULE = ('direct: event times on a half-dump grid from three periods before the first dump to two after the last '
+        '(several per dump, on edges, crowded, all early / all late, none), values from a 4-letter alphabet, N<=7 dumps '
+        '(regular or irregular ends), dump period 1, 2 or 3 s, greedy set of 0/1/2 values or None, initial value '
+        'absent/plain/greedy, transform none or a finite map (one merging into a greedy letter), allow_repeats '
+        'True/False/left to its default, value representation str/int/wrapped ndarray/wrapped tuple, scalar inputs; '
+        'cache: RAW samples in random order with duplicate timestamps, statuses (readable / unreadable / none), a time '
+        'offset, possibly no usable sample at all (dummy), keep mask, categorical property absent/True/False, float '
+        'dtype; values: array-valued sensors whose values collide in shape ((1,) vs (n,), empty, 0-d, 2-d, scalars, tuples, '
+        'lists, NaN) and pairs of such values for ==, != and hash; non-trivial when an event lies inside the dumps and either two events share a dump or a greedy '
         'value occurs; distinct by the full canonical case')
-ASSUMPTIONS = ['sensor timestamps are sorted (SensorCache._extract sorts them) and dump mid-times strictly increase; '
-               'numpy searchsorted is modelled for sorted arrays',
+ASSUMPTIONS = ['direct calls: sensor timestamps are non-decreasing and dump mid-times strictly increase (the cache path '
+               'sorts: unsorted raw samples are generated there); numpy searchsorted is modelled for sorted arrays',
                'times are dyadic rationals so that float64 comparisons in katdal are exact',
-               'on the SensorCache path remove_duplicates_and_invalid_values (property C12) is applied first: the '
-               'harness keeps the last of equal timestamps before calling the model',
-               'array-valued (wrapped) sensors need at least one sample (wrappedness is inferred from the first value) and '
-               'their greedy values are handed over wrapped, except in the single F27 probe',
-               'equality of sensor values is equality of their ids (str, int, ndarray via ComparableArrayWrapper)']
+               'array-valued (wrapped) sensors need at least one sample on the direct path (wrappedness is inferred from '
+               'the first value) and their greedy values are handed over wrapped, except in the single F27 probe',
+               'equality of sensor values is equality of their ids (str, int, same-shape ndarray / tuple via ComparableArrayWrapper) '
+               'in the direct / cache / table cases; the value cases (c10_values) let the model of ComparableArrayWrapper.__eq__ assign '
+               'the ids and decode by kind, shape and elements; np.array_equal is modelled (same shape, elementwise ==, NaN unequal)',
+               'the clean-up of raw samples (sort, last of equal timestamps, readable status) is property C12; here '
+               'its model (Model/SensorToCatPath.v clean_r) is tied by the correspondence on the usable samples']
 
-PERIOD = 2          # wire units per dump; python uses dump_period = 1.0
-LETTERS = {1: 'a', 2: 'b', 3: 'g', 4: 'h', 5: 'i', 6: 'j'}
+LETTERS = {0: '', 1: 'a', 2: 'b', 3: 'g', 4: 'h', 5: 'i', 6: 'j'}
 IDS = {v: k for k, v in LETTERS.items()}
 REPRS = ('str', 'int', 'warr', 'wtup')
+NONE_ID = -1        # Model.SensorToCatSrc.none_id
+STATUSES = ['nominal', 'warn', 'error', 'unknown', 'failure', 'nominally', 'unreachable', '']
 
 
 def _quiet():
@@ -42,23 +55,38 @@ def enc(rep, k):
     """Unwrapped python value standing for id k."""
     if rep == 'str':
         return LETTERS[k]
-    if rep == 'int':
-        return int(k)
+    if rep in ('int', 'float'):
+        return int(k) if rep == 'int' else float(k)
+    if k == -2:
+        return None
     if rep == 'warr':
         return np.array([k, 10 * k])
     return (int(k), int(k) + 100)
 
 
 def dec(rep, v):
+    from katdal.categorical import ComparableArrayWrapper
+    v = ComparableArrayWrapper.unwrap(v)
+    if v is None:
+        return -2 if rep in ('warr', 'wtup') else NONE_ID
     if rep == 'str':
-        return IDS[str(v)]
-    if rep == 'int':
+        return IDS.get(str(v), 900 + (sum(map(ord, str(v))) % 97))     # a string that is not a letter: foreign id
+    if rep in ('int', 'float'):
         return int(v)
     return int(np.asarray(v).ravel()[0])
 
 
-def impl_direct(case):
-    from katdal.categorical import ComparableArrayWrapper, sensor_to_categorical
+def default_id(rep):
+    """Id of the value dummy_sensor_getter makes up for a sensor of this type when there is no initial value."""
+    return {'str': 0, 'int': -1, 'warr': -2, 'wtup': -2}.get(rep, 0)
+
+
+def period_of(case):
+    return case.get('P', 2)
+
+
+def real_inputs(case):
+    from katdal.categorical import ComparableArrayWrapper
     rep = case['rep']
     wrapped = rep in ('warr', 'wtup')
     ts = np.array([t / 2.0 for t in case['ts']], dtype=float)
@@ -68,8 +96,9 @@ def impl_direct(case):
         for n, r in enumerate(raw):
             vals[n] = ComparableArrayWrapper(r)
     else:
-        vals = np.array(raw) if raw else np.array([], dtype='<U1' if rep == 'str' else int)
-    mid = np.array([e / 2.0 - 0.5 for e in case['ends']], dtype=float)
+        vals = np.array(raw) if raw else np.array([], dtype={'str': '<U1', 'int': int, 'float': float}[rep])
+    P = period_of(case)
+    mid = np.array([e / 2.0 - P / 4.0 for e in case['ends']], dtype=float)
     kw = {}
     if case['tr'] is not None:
         m = dict(case['tr'])
@@ -81,64 +110,137 @@ def impl_direct(case):
         # `value in greedy_values` raise); case['raw_greedy'] asks for the documented unwrapped form
         wrapg = rep == 'warr' and not case.get('raw_greedy')
         kw['greedy_values'] = [ComparableArrayWrapper(enc(rep, k)) if wrapg else enc(rep, k) for k in case['greedy']]
-    if case['ar']:
-        kw['allow_repeats'] = True
-    if case.get('path') == 'cache':
-        from katdal.sensordata import SensorCache, SimpleSensorGetter
-        cache = SensorCache({'s': SimpleSensorGetter('s', ts.copy(), vals)}, mid, 1.0, props={'s': kw})
-        return cache.get('s')
-    return sensor_to_categorical(ts, vals, mid, 1.0, **kw)
+    if case['ar'] is not None:
+        kw['allow_repeats'] = bool(case['ar'])
+    return ts, vals, mid, P / 2.0, kw
+
+
+def impl_direct(case):
+    from katdal.categorical import sensor_to_categorical
+    ts, vals, mid, period, kw = real_inputs(case)
+    if case.get('scalar') and len(ts) == 1:
+        return sensor_to_categorical(float(ts[0]), vals[0], mid, period, **kw)
+    return sensor_to_categorical(ts, vals, mid, period, **kw)
+
+
+def impl_cache(case):
+    """-> (result of cache.get, result of cache[name] or exception text)."""
+    from katdal.sensordata import SensorCache, SimpleSensorGetter
+    ts, vals, mid, period, kw = real_inputs(case)
+    st = case.get('status')
+    status = None if st is None else np.array([STATUSES[k] for k in st], dtype='S12')
+    if case.get('off') is not None:
+        kw['time_offset'] = case['off'] / 2.0
+    if case.get('categ') is not None:
+        kw['categorical'] = bool(case['categ'])
+    keep = slice(None) if case.get('keep') is None else np.array(case['keep'], dtype=bool)
+    cache = SensorCache({'s': SimpleSensorGetter('s', ts.copy(), vals, status)}, mid, period, keep=keep, props={'s': kw})
+    c = cache.get('s')
+    try:
+        sel = cache['s']
+    except Exception as e:   # noqa: BLE001
+        sel = 'err:' + type(e).__name__
+    return c, sel
 
 
 def observe(case):
-    """-> ('ok', events, indices, unique ids, per-dump ids) or ('err', exception name)."""
+    """-> ('ok', events, indices, unique ids, per-dump ids[, selected ids]) | ('num',) | ('err', exception name)."""
+    from katdal.categorical import CategoricalData
     rep = case['rep']
     try:
-        c = impl_direct(case)
+        sel = None
+        if case.get('path') == 'cache':
+            c, sel = impl_cache(case)
+            if not isinstance(c, CategoricalData):
+                return ('num',)
+        else:
+            c = impl_direct(case)
         ev = [int(e) for e in c.events]
         ind = [int(i) for i in c.indices]
         uniq = [dec(rep, v) for v in c.unique_values]
-        allv = c[:]
-        per = [dec(rep, v) for v in allv]
-        return ('ok', ev, ind, uniq, per)
+        per = [dec(rep, v) for v in c[:]]
+        if sel is not None and not isinstance(sel, str):
+            sel = [dec(rep, v) for v in sel]
+        return ('ok', ev, ind, uniq, per, sel)
     except Exception as e:   # noqa: BLE001
         return ('err', type(e).__name__ + ': ' + str(e)[:80])
 
 
 # ---------------------------------------------------------------- model side
 
+def _opt(x):
+    return [] if x is None else [x]
+
+
 def wire(case):
-    ts, vals = case['ts'], case['vals']
+    P = period_of(case)
+    mids = [e - P // 2 for e in case['ends']]
+    tr = [] if case['tr'] is None else [[list(p) for p in case['tr']]]
+    ar = [] if case['ar'] is None else [1 if case['ar'] else 0]
     if case.get('path') == 'cache':
-        # C12's clean-up: keep the last of each run of equal timestamps (timestamps are already sorted here)
-        keep = [n for n in range(len(ts)) if n == len(ts) - 1 or ts[n + 1] != ts[n]]
-        ts, vals = [ts[n] for n in keep], [vals[n] for n in keep]
-    return [10, [ts, vals, case['ends'], PERIOD, [] if case['tr'] is None else [[list(p) for p in case['tr']]],
-                 [] if case['init'] is None else [case['init']], case['greedy'] or [], 1 if case['ar'] else 0]]
+        st = case.get('status')
+        raw = [[t, v, [ord(ch) for ch in (STATUSES[st[n]] if st is not None else '')]]
+               for n, (t, v) in enumerate(zip(case['ts'], case['vals']))]
+        keep = [] if case.get('keep') is None else [[1 if b else 0 for b in case['keep']]]
+        categ = [] if case.get('categ') is None else [1 if case['categ'] else 0]
+        dflt = case['dflt'] if 'dflt' in case else (default_id(case['rep']) if case['rep'] != 'float' else 0)
+        isf = case['is_float'] if 'is_float' in case else case['rep'] == 'float'
+        return [103, [raw, 1 if st is not None else 0, _opt(case.get('off')), dflt,
+                      mids, P, tr, _opt(case['init']), case['greedy'] or [], ar, keep, categ, 1 if isf else 0]]
+    return [10, [case['ts'], case['vals'], mids, P, tr, _opt(case['init']), case['greedy'] or [], ar]]
+
+
+def usable_py(case):
+    """Python rendering of Model.SensorToCatPath.usable_samples (only for classification / the fallback)."""
+    off = case.get('off') or 0
+    st = case.get('status')
+    rows = sorted(((t + off, n) for n, t in enumerate(case['ts'])), key=lambda r: r[0])
+    out = []
+    for k, (t, n) in enumerate(rows):
+        if k + 1 < len(rows) and rows[k + 1][0] == t:
+            continue
+        if st is not None and STATUSES[st[n]][:7] not in ('nominal', 'warn', 'error'):
+            continue
+        out.append((t, case['vals'][n]))
+    if not out:
+        out = [(0, case['init'] if case['init'] is not None else case.get('dflt', default_id(case.get('rep', 'str'))))]
+    return out
+
+
+def effective(case):
+    """(times, values) that reach sensor_to_categorical."""
+    if case.get('path') == 'cache':
+        u = usable_py(case)
+        return [t for t, _ in u], [v for _, v in u]
+    return case['ts'], case['vals']
 
 
 def classify(case):
-    e0 = case['ends'][0]
-    prior = any(t <= e0 - PERIOD for t in case['ts'])
-    in0 = any(e0 - PERIOD < t <= e0 for t in case['ts'])
-    inrange = any(t <= case['ends'][-1] for t in case['ts'])
-    tr = dict(case['tr'] or [])
+    ts, _ = effective(case)
+    P = period_of(case)
+    e0 = case['ends'][0] if case['ends'] else 0
+    prior = any(t <= e0 - P for t in ts)
+    in0 = any(e0 - P < t <= e0 for t in ts)
+    inrange = any(t <= case['ends'][-1] for t in ts) if case['ends'] else False
     g = case['greedy'] or []
     init = 'none' if case['init'] is None else ('greedy' if case['init'] in g else 'plain')
-    return 'init=%s;prior=%d;first_dump_event=%d;inrange=%d' % (init, prior, in0, inrange), tr
+    return 'init=%s;prior=%d;first_dump_event=%d;inrange=%d' % (init, prior, in0, inrange)
 
 
 def nontrivial(case):
     ends = case['ends']
-    lo = ends[0] - PERIOD
-    dumps = [sum(1 for e in ends if e < t) for t in case['ts'] if lo < t <= ends[-1]]
+    if not ends:
+        return False
+    ts, vals = effective(case)
+    lo = ends[0] - period_of(case)
+    dumps = [sum(1 for e in ends if e < t) for t in ts if lo < t <= ends[-1]]
     tr = dict(case['tr'] or [])
     g = case['greedy'] or []
-    return bool(dumps) and (len(set(dumps)) < len(dumps) or any(tr.get(v, v) in g for v in case['vals']))
+    return bool(dumps) and (len(set(dumps)) < len(dumps) or any(tr.get(v, v) in g for v in vals))
 
 
 def wellformed(case, ob):
-    _, ev, ind, uniq, per = ob
+    ev, ind, uniq, per = ob[1:5]
     n = len(case['ends'])
     bad = []
     if not ev or ev[0] != 0:
@@ -158,17 +260,40 @@ def wellformed(case, ob):
     return bad
 
 
-def compare(ctx, case, mo):
-    """mo = [model, spec, spec_as_coded] from wire_10 (or None while searching without a model binary)."""
-    ob = observe(case)
+def parse_model(case, mo):
+    """-> dict(model=[ok, events, indices, unique, [ok, per]] | None, spec, coded, f14s, f14d, decision, usable, selected)."""
+    if mo is None:
+        return py_fallback(case)
+    if case.get('path') == 'cache':
+        (decision, spec_decision), usable, m, spec, coded = mo
+        return dict(model=m[0], selected=m[1], spec=spec, coded=coded, decision=bool(decision), spec_decision=bool(spec_decision),
+                    usable=[tuple(p) for p in usable], f14s=None, f14d=None)
+    m, spec, coded, f14s, f14d = mo
+    return dict(model=m, selected=None, spec=spec, coded=coded, decision=True, usable=None, f14s=bool(f14s), f14d=bool(f14d))
+
+
+def compare(ctx, case, mo, ob=None, prefix=''):
+    """ob: precomputed observation (c10_tables observes through its own value abstraction)."""
+    if ob is None:
+        ob = observe(case)
     ctx.traces_validated += 1
-    shape, _ = classify(case)
-    base = 'path=%s;%s' % (case.get('path', 'direct'), shape)
+    path = case.get('path', 'direct')
+    base = prefix + 'path=%s;%s' % (path, classify(case))
     if case.get('raw_greedy'):
         base = 'greedy=unwrapped_ndarray;' + base
-    if mo is None:
-        mo = py_fallback(case)
-    model, spec, coded = mo
+    M = parse_model(case, mo)
+    model, spec, coded = M['model'], M['spec'], M['coded']
+    # ---- the categorical / numerical decision of _extract: against the SPEC (explicit property, else non-float) and,
+    #      as a tie, against the decision of the model written over the regenerated default
+    want = M.get('spec_decision', M['decision'])
+    if path == 'cache' and ob[0] != 'err' and (want != (ob[0] != 'num') or M['decision'] != (ob[0] != 'num')):
+        ctx.disagree(base + ';symptom=categorical_decision', case, ob[0], [M['decision'], want],
+                     'SensorCache.get treats the sensor as %s, the rule (explicit property, else non-float) says %s'
+                     % ('numerical' if ob[0] == 'num' else 'categorical', 'categorical' if want else 'numerical'),
+                     kind='property' if want != (ob[0] != 'num') else 'tie')
+        return ob
+    if ob[0] == 'num' or not want:
+        return ob
     in_domain = spec[0] == 1
     # ---- tie: implementation vs extracted model
     if model is not None:
@@ -177,13 +302,15 @@ def compare(ctx, case, mo):
                 ctx.disagree(base + ';symptom=raises_model_answers', case, ob[1], model[1:],
                              'implementation raised, model returned data', spec=spec, kind='tie')
         elif ob[0] == 'ok' and model[0] == 0:
-            if True:
-                ctx.disagree(base + ';symptom=answers_model_raises', case, ob[1:], 'Err',
-                             'implementation returned data where the model raises', spec=spec, kind='tie')
+            ctx.disagree(base + ';symptom=answers_model_raises', case, ob[1:], 'Err',
+                         'implementation returned data where the model raises', spec=spec, kind='tie')
         elif ob[0] == 'ok':
             mper = model[4][1] if model[4][0] == 1 else 'Err'
-            for name, a, b in (('events', ob[1], model[1]), ('indices', ob[2], model[2]),
-                               ('unique_values', ob[3], model[3]), ('per_dump', ob[4], mper)):
+            pairs = [('events', ob[1], model[1]), ('indices', ob[2], model[2]),
+                     ('unique_values', ob[3], model[3]), ('per_dump', ob[4], mper)]
+            if M['selected'] is not None:
+                pairs.append(('selected', ob[5], M['selected'][1] if M['selected'][0] == 1 else 'Err'))
+            for name, a, b in pairs:
                 if a != b:
                     ctx.disagree(base + ';symptom=tie_%s' % name, case, a, b,
                                  '%s of the implementation differ from the model of the code' % name, spec=spec, kind='tie')
@@ -195,16 +322,31 @@ def compare(ctx, case, mo):
                          'defined for every dump', spec=spec[1])
         else:
             if ob[4] != spec[1]:
-                beyond = '' if (coded[0] == 1 and ob[4] == coded[1]) else ';not_explained_by_dropped_initial_value'
-                ctx.disagree(base + ';symptom=per_dump_differs_from_rule' + beyond, case, ob[4], model and model[1:],
+                explained = coded[0] == 1 and ob[4] == coded[1] and M['f14d'] in (None, True) \
+                    and ob[4][1:] == spec[1][1:]
+                beyond = '' if explained else ';not_explained_by_dropped_initial_value'
+                # the F14 defect seen through a format table / a data set is the same finding as through the cache
+                sig = (base[len(prefix):] if explained else base) + ';symptom=per_dump_differs_from_rule' + beyond
+                ctx.disagree(sig, case, ob[4], model and model[1:],
                              'per-dump values differ from the documented rule', spec=spec[1])
+            elif M['f14d']:
+                ctx.disagree(base + ';symptom=f14_boundary', case, ob[4], model and model[1:],
+                             'the exact F14 boundary (theorem C10_per_dump_exact) says the code differs from the rule '
+                             'here, but it does not', spec=spec[1], kind='tie')
             bad = wellformed(case, ob)
             if bad:
-                ctx.disagree(base + ';symptom=' + bad[0], case, ob[1:], model and model[1:],
+                ctx.disagree(base + ';symptom=' + bad[0], case, ob[1:5], model and model[1:],
                              'result is not well formed: ' + ','.join(bad), spec=spec[1])
+            # cache[name] (select=True) = the per-dump values under the keep mask
+            if path == 'cache' and ob[5] is not None:
+                keep = case.get('keep')
+                want = spec[1] if keep is None else [v for v, k in zip(spec[1], keep) if k]
+                if ob[5] != want and ob[4] == spec[1]:
+                    ctx.disagree(base + ';symptom=selected_values', case, ob[5], M['selected'],
+                                 'cache[name] is not the per-dump values under the keep mask', spec=want)
     elif ob[0] == 'ok':
         # out of domain (no dump, or no initial value and no event at or before the last dump): must not answer
-        ctx.disagree(base + ';symptom=answers_out_of_domain', case, ob[1:], model, 'data returned although no start value is defined',
+        ctx.disagree(base + ';symptom=answers_out_of_domain', case, ob[1:5], model, 'data returned although no start value is defined',
                      spec=None)
     return ob
 
@@ -212,14 +354,11 @@ def compare(ctx, case, mo):
 # ---------------------------------------------------------------- python fallback (only while searching with no model)
 
 def py_spec(case, init):
-    ts, ends = case['ts'], case['ends']
-    if case.get('path') == 'cache':
-        w = wire(case)[1]
-        ts, vals = w[0], w[1]
-    else:
-        vals = case['vals']
+    ends = case['ends']
+    ts, vals = effective(case)
     if not ends:
         return [0]
+    P = period_of(case)
     tr = dict(case['tr'] or [])
     tv = [(t, tr.get(v, v)) for t, v in zip(ts, vals)]
     g = case['greedy'] or []
@@ -231,7 +370,7 @@ def py_spec(case, init):
             return [0]
         st = f[0]
     out = []
-    los = [ends[0] - PERIOD] + list(ends[:-1])
+    los = [ends[0] - P] + list(ends[:-1])
     for lo, hi in zip(los, ends):
         before = [v for t, v in tv if t <= lo]
         S = [before[-1] if before else st] + [v for t, v in tv if lo < t <= hi]
@@ -241,17 +380,23 @@ def py_spec(case, init):
 
 
 def py_fallback(case):
+    ts, _ = effective(case)
+    P = period_of(case)
     e0 = case['ends'][0] if case['ends'] else 0
     coded = case['init']
-    if not any(t <= e0 - PERIOD for t in case['ts']) and any(e0 - PERIOD < t <= e0 for t in case['ts']):
+    if not any(t <= e0 - P for t in ts) and any(e0 - P < t <= e0 for t in ts):
         coded = None
-    return None, py_spec(case, case['init']), py_spec(case, coded)
+    categ = case.get('categ')
+    decision = bool(categ) if categ is not None else not case.get('is_float', case['rep'] == 'float')
+    return dict(model=None, selected=None, spec=py_spec(case, case['init']), coded=py_spec(case, coded),
+                decision=decision, spec_decision=decision, usable=None, f14s=None, f14d=None)
 
 
 # ---------------------------------------------------------------- generators
 
-def gen_case(rng, nmax=7, mmax=9):
+def gen_ends(rng, nmax):
     n = rng.randint(1, nmax)
+    P = rng.choice([2, 2, 2, 4, 6])
     if rng.random() < 0.15:
         ends, e = [], rng.randint(-2, 2)
         for _ in range(n):
@@ -259,15 +404,22 @@ def gen_case(rng, nmax=7, mmax=9):
             e += rng.choice([1, 2, 2, 3, 4])
     else:
         base = rng.choice([0, 0, 0, 2, -3])
-        ends = [base + PERIOD * k for k in range(n)]
+        ends = [base + P * k for k in range(n)]
+    return ends, P
+
+
+def gen_case(rng, nmax=7, mmax=9):
+    ends, P = gen_ends(rng, nmax)
     rep = rng.choice(['str', 'str', 'int', 'warr', 'wtup'])
     m = rng.randint(1 if rep in ('warr', 'wtup') else 0, mmax)
-    lo, hi = ends[0] - 3 * PERIOD, ends[-1] + 2 * PERIOD
+    lo, hi = ends[0] - 3 * P, ends[-1] + 2 * P
     mode = rng.random()
     if mode < 0.15:      # everything late / early
-        pool = list(range(ends[-1] + 1, hi + 1)) if rng.random() < 0.5 else list(range(lo, ends[0] - PERIOD + 1))
+        pool = list(range(ends[-1] + 1, hi + 1)) if rng.random() < 0.5 else list(range(lo, ends[0] - P + 1))
     elif mode < 0.35:    # crowded: few distinct times
         pool = [rng.randint(lo, hi) for _ in range(3)]
+    elif mode < 0.45:    # exactly on the edges
+        pool = [ends[0] - P] + list(ends)
     else:
         pool = list(range(lo, hi + 1))
     ts = sorted(rng.choice(pool) for _ in range(m))
@@ -275,13 +427,59 @@ def gen_case(rng, nmax=7, mmax=9):
     greedy = rng.choice([None, [], [3], [3], [3, 4], [4, 1]])
     init = rng.choice([None, None, 5, 3, 3, 1])
     tr = rng.choice([None, None, [(2, 1)], [(1, 3)], [(3, 2), (4, 4)]])
-    ar = rng.random() < 0.3
-    return dict(ts=ts, vals=vals, ends=ends, tr=tr, init=init, greedy=greedy, ar=ar, rep=rep, path='direct')
+    ar = rng.choice([None, False, False, True])
+    case = dict(ts=ts, vals=vals, ends=ends, tr=tr, init=init, greedy=greedy, ar=ar, rep=rep, path='direct')
+    if P != 2:
+        case['P'] = P
+    if m == 1 and rng.random() < 0.3:
+        case['scalar'] = True
+    return case
+
+
+def gen_cache_case(rng):
+    """Raw samples for SensorCache.get: random order, duplicate timestamps, statuses, offset, keep, categorical."""
+    c = gen_case(rng, 6, 8)
+    c.pop('scalar', None)
+    c['path'] = 'cache'
+    if c['rep'] == 'wtup':
+        c['rep'] = 'warr'
+    r = rng.random()
+    isfloat = r < 0.08 and c['ts']
+    if isfloat:
+        c['rep'] = 'float'
+        c['tr'] = None
+    m = len(c['ts'])
+    if m and rng.random() < 0.5:         # duplicates
+        for _ in range(rng.randint(1, 2)):
+            k = rng.randrange(m)
+            c['ts'].append(c['ts'][k])
+            c['vals'].append(rng.choice([1, 2, 3, 4]))
+    order = list(range(len(c['ts'])))
+    if rng.random() < 0.6:
+        rng.shuffle(order)
+    c['ts'] = [c['ts'][k] for k in order]
+    c['vals'] = [c['vals'][k] for k in order]
+    if rng.random() < 0.5 and not isfloat:      # (a float sensor without usable samples gets a NaN dummy: no id)
+        mode = rng.random()
+        c['status'] = [rng.choice([0, 0, 0, 1, 2, 3, 4, 5, 6, 7]) if mode < 0.8 else rng.choice([3, 4, 7])
+                       for _ in c['ts']]
+    if rng.random() < 0.3:
+        c['off'] = rng.choice([-4, -2, -1, 1, 2, 3])
+    if rng.random() < 0.3:
+        c['keep'] = [rng.random() < 0.6 for _ in c['ends']]
+    c['categ'] = rng.choice([None, None, None, True, False]) if c['rep'] != 'float' else rng.choice([None, None, True])
+    if c['categ'] is False or (c['rep'] == 'float' and c['categ'] is None):
+        # numerical extraction needs numbers
+        if c['rep'] not in ('int', 'float'):
+            c['categ'] = None
+    return c
 
 
 def canon(case):
-    return (tuple(case['ts']), tuple(case['vals']), tuple(case['ends']), repr(case['tr']), case['init'],
-            tuple(case['greedy'] or ()), case['greedy'] is None, case['ar'], case['rep'], case.get('path', 'direct'))
+    return (tuple(case['ts']), tuple(case['vals']), tuple(case['ends']), period_of(case), repr(case['tr']), case['init'],
+            tuple(case['greedy'] or ()), case['greedy'] is None, case['ar'], case['rep'], case.get('path', 'direct'),
+            case.get('scalar', False), tuple(case.get('status') or ()), case.get('status') is None, case.get('off'),
+            tuple(case.get('keep') or ()), case.get('keep') is None, case.get('categ'))
 
 
 def run_cases(ctx, cases, tag):
@@ -292,15 +490,33 @@ def run_cases(ctx, cases, tag):
         ob = compare(ctx, case, mo)
         nt = nontrivial(case)
         ctx.note_case(canon(case), nontrivial=nt,
-                      sample=dict(case, observed=ob[1:] if ob[0] == 'ok' else ob[1]) if nt and n % 97 == 0 else None)
+                      sample=dict(case, observed=list(ob[1:]) if ob[0] == 'ok' else ob[0:2]) if nt and n % 97 == 0 else None)
         ctx.count('%s:N=%d' % (tag, len(case['ends'])))
         ctx.count('rep=' + case['rep'])
-        ctx.count('init=' + classify(case)[0].split(';')[0][5:])
+        ctx.count(classify(case).split(';')[0])
         ctx.count('result=' + ob[0])
+        ctx.count('period=%d' % period_of(case))
+        ctx.count('events=%s' % ('0' if not case['ts'] else '1' if len(case['ts']) == 1 else '2+'))
+        ctx.count('allow_repeats=%s' % case['ar'])
         if case['tr'] is not None:
             ctx.count('with_transform')
-        if case['ar']:
-            ctx.count('allow_repeats')
+        if case.get('scalar'):
+            ctx.count('scalar_inputs')
+        if tag == 'cache':
+            ts = case['ts']
+            ctx.count('cache:unsorted' if any(a > b for a, b in zip(ts, ts[1:])) else 'cache:sorted')
+            if len(set(ts)) < len(ts):
+                ctx.count('cache:duplicate_timestamps')
+            if case.get('status') is not None:
+                ctx.count('cache:with_status')
+            if case.get('off') is not None:
+                ctx.count('cache:time_offset')
+            if case.get('keep') is not None:
+                ctx.count('cache:keep_mask')
+            ctx.count('cache:categorical=%s' % case.get('categ'))
+            if mo is not None and len(mo[1]) == 1 and (not ts or tuple(mo[1][0]) not in set(zip([t + (case.get('off') or 0) for t in ts], case['vals']))):
+                # (mo[1] = usable samples)
+                ctx.count('cache:dummy_sample')
 
 
 def gen_generator_cases(ctx, n):
@@ -349,8 +565,8 @@ def exhaustive_cases(nmax=3, mmax=4):
     """Every placement of <= mmax events on the grid (before prior edge, on it, inside, on each edge, after)
     x every value word over {a, g, h} x greedy sets x initial value none/plain/greedy."""
     for n in range(1, nmax + 1):
-        ends = [PERIOD * k for k in range(n)]
-        grid = list(range(-PERIOD - 1, ends[-1] + 2))
+        ends = [2 * k for k in range(n)]
+        grid = list(range(-3, ends[-1] + 2))
         for m in range(0, mmax + 1):
             for ts in itertools.combinations_with_replacement(grid, m):
                 for vals in itertools.product([1, 3, 4], repeat=m):
@@ -360,11 +576,40 @@ def exhaustive_cases(nmax=3, mmax=4):
                                        ar=(len(ts) + sum(vals)) % 3 == 0, rep='str', path='direct')
 
 
+def boundary_cases():
+    """Hand-picked degenerate-but-legal inputs."""
+    out = []
+    base = dict(tr=None, init=None, greedy=None, ar=None, rep='str', path='direct')
+    out.append(dict(base, ts=[], vals=[], ends=[0, 2], init=5))                 # no sample at all, initial value
+    out.append(dict(base, ts=[], vals=[], ends=[0, 2]))                         # ... and none: must raise
+    out.append(dict(base, ts=[1], vals=[1], ends=[]))                           # no dump: must raise
+    out.append(dict(base, ts=[0], vals=[1], ends=[0], scalar=True))             # one dump, scalar inputs, on the edge
+    out.append(dict(base, ts=[-2], vals=[1], ends=[0]))                         # exactly on the prior edge
+    out.append(dict(base, ts=[-2, -2, 0, 0, 0], vals=[1, 2, 3, 4, 1], ends=[0], greedy=[3]))   # duplicates, direct
+    out.append(dict(base, ts=[1, 1, 1, 1, 1, 1, 1, 1, 1], vals=[1, 3, 1, 3, 1, 4, 1, 3, 1], ends=[0, 2, 4], greedy=[3, 4]))
+    out.append(dict(base, ts=[3], vals=[3], ends=[0, 2, 4], init=3, greedy=[3], ar=True))
+    out.append(dict(base, ts=[-9, 20], vals=[2, 2], ends=[0, 4, 8, 12, 16], P=4, ar=True))
+    out.append(dict(base, ts=[0, 6, 12], vals=[1, 3, 1], ends=[0, 6, 12], P=6, greedy=[3], init=1))
+    out.append(dict(base, ts=[5], vals=[1], ends=[0, 2, 4], rep='warr', init=3, greedy=[3]))
+    c = dict(base, path='cache', ts=[], vals=[], ends=[0, 2], categ=None)
+    out.append(dict(c, rep='str'))                                                # empty sensor: dummy '' at time 0
+    out.append(dict(c, rep='int', init=4))                                        # ... carrying the initial value
+    out.append(dict(c, rep='int', init=2, tr=[(2, 1)]))                           # the dummy is transformed like an event
+    out.append(dict(c, rep='str', ts=[1, 1], vals=[1, 2], status=[3, 4], init=1))  # only unreadable statuses
+    out.append(dict(c, rep='float', ts=[0, 1], vals=[1, 2]))                      # float: numerical unless asked
+    out.append(dict(c, rep='float', ts=[0, 1], vals=[1, 2], categ=True))
+    out.append(dict(c, rep='int', ts=[0, 1], vals=[1, 2], categ=False))
+    out.append(dict(c, rep='str', ts=[3, -1, 3, 1], vals=[1, 2, 3, 4], off=-2, keep=[True, False], greedy=[3]))
+    return out
+
+
 def run(ctx):
     _quiet()
     # known-finding witnesses first
     for f in ctx.findings:
         w = dict(f['witness'])
+        if w.get('path') == 'dataset' or 'table' in w or str(w.get('path', '')).startswith(('values_', 'pair')):
+            continue           # run by c10_tables.run / c10_values.run below
         mo = ctx.model([wire(w)])[0] if ctx.model_ok else None
         compare(ctx, w, mo)
         ctx.count('known_finding_witness')
@@ -373,6 +618,8 @@ def run(ctx):
                  path='direct', raw_greedy=True)
     if not any(f['witness'] == probe for f in ctx.findings):
         compare(ctx, probe, ctx.model([wire(probe)])[0] if ctx.model_ok else None)
+    run_cases(ctx, [c for c in boundary_cases() if c['path'] == 'direct'], 'boundary')
+    run_cases(ctx, [c for c in boundary_cases() if c['path'] == 'cache'], 'cache')
     rng = ctx.rng
     n = ctx.scale(20000, 400000)
     batch = 20000
@@ -382,19 +629,14 @@ def run(ctx):
         cases = [gen_case(rng) for _ in range(k)]
         run_cases(ctx, cases, 'direct')
         done += k
-    # through SensorCache.get (non-float sensors): needs at least one sample
-    ncache = ctx.scale(3000, 40000)
-    cases = []
-    while len(cases) < ncache:
-        c = gen_case(rng)
-        if not c['ts']:
-            continue
-        c['path'] = 'cache'
-        if c['rep'] == 'wtup':
-            c['rep'] = 'warr'
-        cases.append(c)
-    run_cases(ctx, cases, 'cache')
+    # through SensorCache.get / cache[name] from raw samples
+    run_cases(ctx, [gen_cache_case(rng) for _ in range(ctx.scale(6000, 80000))], 'cache')
     run_generator(ctx, gen_generator_cases(ctx, ctx.scale(5000, 60000)))
+    # the sensor property tables of the formats and real data sets
+    from props import c10_tables, c10_values
+    c10_tables.run(ctx)
+    # array-valued sensors: values that are not just ids (equality by shape and elements)
+    c10_values.run(ctx)
     if ctx.tier == 'thorough' and not ctx.searching:
         buf, tot = [], 0
         for c in exhaustive_cases():
@@ -409,7 +651,7 @@ def run(ctx):
                                                '{a,g,h}, 3 greedy sets, initial value none/plain/greedy' % tot)
         # cross-check of the extraction inside Coq on a sample
         from vh import core
-        sample = [wire(gen_case(rng, 4, 5)) for _ in range(150)]
+        sample = [wire(gen_case(rng, 4, 5)) for _ in range(110)] + [wire(gen_cache_case(rng)) for _ in range(40)]
         a = ctx.model(sample)
         # the thorough tier rebuilt from clean only what Props/C10 needs: make sure the dispatcher's .vo files exist
         targets = ' '.join(x[:-2] + '.vo' for x in core.coq_sources() if x.startswith(('Base/', 'Gen/', 'Model/')))
@@ -429,6 +671,12 @@ def replay(ctx, doc):
     if case.get('path') == 'generator':
         run_generator(ctx, [(case['events'], case['vals'], case['greedy'])])
         return
+    if str(case.get('path', '')).startswith(('values_', 'pair')):
+        from props import c10_values
+        return c10_values.replay(ctx, case)
+    if case.get('path') == 'dataset' or 'table' in case:
+        from props import c10_tables
+        return c10_tables.replay(ctx, case)
     if 'ts' not in case:
         return run(ctx)
     if case.get('tr') is not None:
